@@ -43,6 +43,39 @@ def positioned_ast_types():
     return out
 
 
+def python_oracle(tree):
+    """Independent oracle (plain Python over `ast.walk`): one (type, line) per node that carries a line number, with
+    the three documented adjustments — constants renamed by kind, a minus sign folded into a numeric literal, import
+    aliases skipped."""
+    def kind(v):
+        if isinstance(v, str):
+            return "Str"
+        if isinstance(v, bytes):
+            return "Bytes"
+        if v is True or v is False or v is None:
+            return "NameConstant"
+        if v is Ellipsis:
+            return "Ellipsis"
+        return "Num"
+
+    def is_neg_literal(n):
+        return (isinstance(n, ast.UnaryOp) and isinstance(n.op, ast.USub) and isinstance(n.operand, ast.Constant)
+                and kind(n.operand.value) == "Num")
+
+    folded_operands = {id(n.operand) for n in ast.walk(tree) if is_neg_literal(n)}
+    out = collections.Counter()
+    for n in ast.walk(tree):
+        if not hasattr(n, "lineno") or isinstance(n, ast.alias) or id(n) in folded_operands:
+            continue
+        if is_neg_literal(n):
+            out[("Num", n.lineno)] += 1
+        elif isinstance(n, ast.Constant):
+            out[(kind(n.value), n.lineno)] += 1
+        else:
+            out[(type(n).__name__, n.lineno)] += 1
+    return out
+
+
 class E2E:
     def __init__(self, ctx, drv, mods):
         self.ctx = ctx
@@ -57,6 +90,15 @@ class E2E:
         tree = ast.parse(stored)
         r = self.drv.call("c01.spec", tree=fe.export(tree))
         self.ctx.dist("hypothesis treeOk holds on the (tweaked) real tree" if r["wf"] else "hypothesis treeOk FAILS on the (tweaked) real tree")
+        spec_nodes = collections.Counter((t, ln) for t, ln in r["nodes"])
+        if spec_nodes != python_oracle(tree):
+            # the Lean specification and the independent Python reading of the property text disagree
+            self.ctx.broken.append("corr:c01.spec-vs-python-oracle")
+            self.ctx.cov.setdefault("corr_replay", {"stored": ast.unparse(tree)[:400],
+                                                    "spec_minus_oracle": sorted((spec_nodes - python_oracle(tree)).elements())[:6],
+                                                    "oracle_minus_spec": sorted((python_oracle(tree) - spec_nodes).elements())[:6]})
+        else:
+            self.ctx.dist("c01.spec == independent Python oracle")
         self.ctx.dist("hypotheses of C01_node_labels_pipeline (wfStages6 + treeOk stage6) " + ("hold" if r["wf_pipeline"] else "FAIL") + " on the real tree")
         return collections.Counter((t, ln) for t, ln in r["nodes"]), tree
 
@@ -498,13 +540,11 @@ def run(ctx):
         "a case = one list of lines searched by both the real regex engine (pattern of feature `node` read from spec.md) and the "
         "hand matcher (non-trivial: at least one match), or one program tagged end to end (non-trivial: at least 3 positioned nodes)"
     )
-    ctx.cov["proved"] = [
-        "C01_node_labels: on the dump of a well-formed tree the matcher yields exactly one (type, own line) per positioned node, nothing else for positioned types",
-        "C01_node_labels_pipeline: the same on what flatten_ast returns (through C15_tweaks_full), for the tweaked tree stage6",
-        "C01_same_text: the parser is given exactly program.source (data flow of the model)",
-    ]
+    ctx.cov["proved"] = sorted(t.split(".")[-1] for t in ctx.cov.get("theorems", {}))
     ctx.cov["exercised_only"] = [
         "ast.parse, Cleanup, get_program (the stored source and its tree are inputs)",
+        "the `same text` clause: that ProgramParser parses exactly the stored source (recorded ast.parse argument vs "
+        "programs_infos[path]['source'] during TagDatabase, both cleanup strategies)",
         "that the real regex engine behaves as the hand matcher (validated on every run, see streams matcher:*; domain: lines "
         "with at most one occurrence of /_type=, where the engine's repeat guards do not prune backtracking over group 1)",
         "the 172 other features and the SQL derivations (only `node:` labels are examined)",
